@@ -408,9 +408,10 @@ def write_evidence(pid, tier, level, coverage, wall, violations, assumptions):
     ev = dict(property_id=pid, tier=tier, seed=SEED, level=level, coverage=coverage,
               assumptions=assumptions, wall_s=round(wall, 2), violations=violations)
     p = os.path.join(VERIF, evdir, pid + ".json")
-    with open(p + ".tmp", "w") as f:
+    tmp = "%s.%d.tmp" % (p, os.getpid())   # two checks may run at once (e.g. against different trees)
+    with open(tmp, "w") as f:
         json.dump(ev, f, indent=1, sort_keys=True)
-    os.replace(p + ".tmp", p)
+    os.replace(tmp, p)
 
 
 def write_replay(pid, tag, content):
